@@ -56,6 +56,30 @@ CLAIMED = {
          "Exploration: hundreds of thousands of generated weighted shapes and ~190 law configurations x 4e5 (quick) / 5e6 (thorough) draws.",
          "Trusted: rand Bernoulli / choose_weighted; the payload of WeightSumOverflow is not compared.",
          "DESIGN.md §2 C13"),
+ "C09": (PBT + ": generated (population size, rounds, serial/parallel, rayon pool size, failure positions, delay script) histories with an instrumented child maker; invariants over the history (atomic replacement, all-or-nothing on failure, every call saw the old population, pairwise distinct random words)",
+         "Exploration: 12000 (quick) / 400000 (thorough) generated multi-round histories over pool sizes 1..16 and sizes 0..1000. Interleavings are perturbed by pool size and a delay script, not enumerated; this is the weakest claim of the set.",
+         "Trusted: rayon; the thread generator's words are treated as pairwise distinct when children have live randomness (64-bit collisions are negligible).",
+         "DESIGN.md §2 C09"),
+ "C14": (PBT + ": generated composition trees of the real combinators around logging probe operators, differential against a reference interpreter of the tree (call order, inputs, words drawn at each stream offset, stop at first failure, failing part recovered from the error); wrapper operators against the wrapped parts run by hand from equal generator states",
+         "Exploration: hundreds of thousands (quick) to millions (thorough) of generated compositions (depth <= 6) and wrapper pipelines.",
+         "Trusted: the reference interpreter; the failing part is read from Debug/Display text of the crate's error types (fields private) and reported unobservable if that text changes.",
+         "DESIGN.md §2 C14"),
+ "C15": (PBT + ": order laws and operator agreement on exhaustive extreme triples and generated values, result vectors vs independently computed totals, individuals vs their results, generator/scorer provenance with a recording scorer",
+         "Exploration with an exhaustive component: all 343 triples over the 7 extreme i64 values; hundreds of thousands (quick) to millions (thorough) of generated cases.",
+         "Trusted: i128 reference sums; TestResults == is not required to agree with cmp.",
+         "DESIGN.md §2 C15"),
+ "C16": (PBT + ": call histories over a registry of operators, each call run twice from cloned word-counting generators (results, words consumed, next word), repeats within a history, a third run on another thread; Push programs run twice and with permuted input declaration order",
+         "Exploration: 150000 + 60000 (quick) to millions (thorough) of generated histories / programs; absence of hidden inputs can only be refuted by sampling.",
+         "Trusted: the word-counting generator wrapper around StdRng.",
+         "DESIGN.md §2 C16"),
+ "C17": ("generated compile probe (one erased flavour per line, cargo check JSON diagnostics) deciding existence of all 280 flavours, then " + PBT + ": concrete value vs every erased flavour from cloned word-counting generators (result identity, error text and downcast, words consumed)",
+         "Exploration: all 280 (trait, pointer, auto-trait, error type) flavours are type-checked and each is exercised on thousands of generated cases.",
+         "Trusted: rustc diagnostics codes (E0277/E0599/E0271 = missing impl); the companion crate harness-dyn.",
+         "DESIGN.md §2 C17"),
+ "C18": (PBT + " for sizes and membership (counting / tagging element generator, all 14 conversion flavours + macro, pointer identity) plus seeded statistical tests of member frequencies = multiplicity / length",
+         "Exploration: sizes 0..300 (2000 thorough) plus boundary sizes to 5000 and 100000 once; 15 choice flavours x lengths 1..8 x 3e5 (quick) / 5e6 (thorough) draws.",
+         "Trusted: rand Uniform / Choose (the law is about how the crate uses them).",
+         "DESIGN.md §2 C18"),
 }
 NOT_YET = "check not built yet in this revision (work in progress; see DESIGN.md §2 for the planned generated-input check)"
 
